@@ -196,3 +196,48 @@ func SameValue(a, b any) bool {
 
 // Show renders a value for messages.
 func Show(v any) string { return fmt.Sprintf("%v", Canon(v)) }
+
+// Scribble overwrites everything reachable from v through pointers, interfaces, structs and slices with other values
+// (integers complemented, booleans negated, bytes of slices complemented, strings replaced). A decoded value
+// belongs to the caller: scribbling over it must not change what the decoder yields next time.
+func Scribble(v any) { scribble(reflect.ValueOf(v), 0) }
+
+func scribble(v reflect.Value, depth int) {
+	if !v.IsValid() || depth > 12 {
+		return
+	}
+	switch v.Kind() {
+	case reflect.Ptr:
+		if !v.IsNil() {
+			scribble(v.Elem(), depth+1)
+		}
+	case reflect.Interface:
+		if !v.IsNil() {
+			scribble(v.Elem(), depth+1) // reaches the pointee when the interface holds a pointer
+		}
+	case reflect.Struct:
+		for i := 0; i < v.NumField(); i++ {
+			scribble(v.Field(i), depth+1)
+		}
+	case reflect.Slice, reflect.Array:
+		for i := 0; i < v.Len(); i++ {
+			scribble(v.Index(i), depth+1)
+		}
+	case reflect.Bool:
+		if v.CanSet() {
+			v.SetBool(!v.Bool())
+		}
+	case reflect.Int, reflect.Int8, reflect.Int16, reflect.Int32, reflect.Int64:
+		if v.CanSet() {
+			v.SetInt(^v.Int())
+		}
+	case reflect.Uint, reflect.Uint8, reflect.Uint16, reflect.Uint32, reflect.Uint64:
+		if v.CanSet() {
+			v.SetUint(^v.Uint() & (1<<uint(v.Type().Bits()) - 1))
+		}
+	case reflect.String:
+		if v.CanSet() {
+			v.SetString("scribbled")
+		}
+	}
+}
